@@ -232,7 +232,15 @@ func registerSweep() {
 			}
 		}
 		checkTemplates := func(s string) {
-			for _, t := range slotTemplates {
+			k := len(s)
+			if k > 0 {
+				k += int(s[k-1])
+			}
+			for i, t := range slotTemplates {
+				// quick tier: generated inputs visit every other template (the fixed corpus visits all)
+				if gen != "" && !c.Thorough() && (k+i)%2 == 1 {
+					continue
+				}
 				c.Count("evaluations")
 				c.Count("template-runs")
 				slot, whole, err := t.render(s)
